@@ -39,6 +39,7 @@ def run(chk: Check, proj: Project) -> None:
     s6_raw_settings_forms(chk, proj)
     s7_same_path_kind(chk, proj)
     s8_one_filter_judged_now(chk, proj)
+    s9_every_dir_every_time(chk, proj)
 
 
 def s8_one_filter_judged_now(chk: Check, proj: Project) -> None:
@@ -65,6 +66,33 @@ def s8_one_filter_judged_now(chk: Check, proj: Project) -> None:
         chk.ob("S8", "finders:__init__:no-file-system-test-at-construction", im.loc(fs[0]) if fs else im.loc(init), not fs,
                "the constructor only records the configured directories; whether one exists is asked when files are listed / found" if not fs else
                f"`{short(enclosing_stmt(fs[0]))}` decides at construction which directories take part, and Django creates the finder once per process (get_finder is memoised): a component directory that is created later is exposed by neither list() nor find() until the process restarts")
+
+
+def s9_every_dir_every_time(chk: Check, proj: Project) -> None:
+    chk.rule("S9", "every configured directory takes part in every lookup: the loops over COMPONENTS.dirs / app_dirs have no break, find() never skips a directory because of what an EARLIER call searched (Django's `searched_locations` is a process-wide debugging list), and the relative path handed to the name filter is computed with a PREFIX operation (os.path.relpath), never with str.lstrip / strip, which remove a character SET")
+    lm, lf = proj.func("util.loader", "get_component_dirs")
+    chk.analysed(fkey(lm, lf))
+    n = 0
+    for lp in [x for x in ast.walk(lf) if isinstance(x, ast.For)]:
+        if not any(k in norm(lp.iter) for k in ("APP_DIRS", "app_dirs", "DIRS", "component_dirs", "app_paths", "apps")):
+            continue
+        n += 1
+        brk = [x for x in ast.walk(lp) if isinstance(x, ast.Break) and next((a for a in ancestors(x) if isinstance(a, (ast.For, ast.While))), None) is lp]
+        chk.ob("S9", f"util.loader:get_component_dirs:loop-over-{short(lp.iter, 30)}-is-complete", lm.loc(brk[0]) if brk else lm.loc(lp), not brk,
+               f"`for .. in {short(lp.iter, 40)}` visits every entry" if not brk else
+               f"`break` ends `for .. in {short(lp.iter, 40)}` at the first hit: an app that has two of the configured directory names (components/ and widgets/) contributes only the first, the files of the other are exposed by neither list() nor find()")
+    chk.floor("S9-loops", n, 2)
+    fm, ff = proj.func("finders", "ComponentsFileSystemFinder.find")
+    chk.analysed(fkey(fm, ff))
+    skips = [x for x in ast.walk(ff) if isinstance(x, (ast.Continue, ast.Break, ast.Return)) and any("searched_locations" in t for t, _p in cond_atoms(x))]
+    chk.ob("S9", "finders:find:searched_locations-does-not-gate-the-lookup", fm.loc(skips[0]) if skips else fm.loc(ff), not skips,
+           "`searched_locations` is only appended to; the lookup runs for every directory on every call" if not skips else
+           f"`{short(enclosing_stmt(skips[0]))}` skips a directory that is already in `searched_locations`, a module-level list nothing ever clears: only the FIRST find() of the process searches a directory, every later lookup returns nothing for files that list() still exposes")
+    fl, flf = proj.func("finders", "ComponentsFileSystemFinder.find_location")
+    strips = [c for fn in (ff, flf) for c in ast.walk(fn) if isinstance(c, ast.Call) and isinstance(c.func, ast.Attribute) and c.func.attr in ("lstrip", "rstrip", "strip") and c.args and not (isinstance(c.args[0], ast.Constant) and isinstance(c.args[0].value, str) and len(c.args[0].value) == 1)]
+    chk.ob("S9", "finders:find_location:relative-path-by-prefix-operation", fl.loc(strips[0]) if strips else fl.loc(flf), not strips,
+           "no strip-family call with a multi-character argument on the lookup path" if not strips else
+           f"`{short(strips[0])}` removes every leading CHARACTER that occurs in the root path, not the root prefix: the relative name handed to the allow / forbid patterns loses its first letters (`notes/app.js` under .../components -> `app.js`: a forbidden `^notes/` no longer matches; `test.css` under .../site.v2/components becomes the empty string)")
 
 
 def s7_same_path_kind(chk: Check, proj: Project) -> None:
